@@ -64,20 +64,21 @@ def _call(res, name, f, *args):
     """call a contracted function; record exceptions/time-outs as violations"""
     from vlib import contracts19 as C
     res["calls"] += 1
-    signal.setitimer(signal.ITIMER_REAL, 2.0)
+    # CPU time of this process, not wall-clock time: a loaded machine must not turn into a verdict
+    signal.setitimer(signal.ITIMER_VIRTUAL, 6.0)
     try:
         return f(*args)
     except C.PostBroken:
         v = C.VIOLATIONS[-1] if C.VIOLATIONS else (name, repr(args), "?")
         res["viol"].append((name + ":wrong-result", v[1], v[2]))
     except Timeout:
-        res["viol"].append((name + ":no-termination", repr(args)[:300], "timeout 2s"))
+        res["viol"].append((name + ":no-termination", repr(args)[:300], "more than 6 s of CPU time"))
     except AssertionError as e:
         res["viol"].append((name + ":assertion", repr(args)[:300], repr(e)))
     except Exception as e:
         res["viol"].append((name + ":exception", repr(args)[:300], repr(e)))
     finally:
-        signal.setitimer(signal.ITIMER_REAL, 0)
+        signal.setitimer(signal.ITIMER_VIRTUAL, 0)
     return None
 
 
@@ -87,7 +88,7 @@ def _worker(job):
     common = repo_import.mod("src.common")
     gi = repo_import.mod("src.gene_info")
     lrp = repo_import.mod("src.long_read_profiles")
-    signal.signal(signal.SIGALRM, _alarm)
+    signal.signal(signal.SIGVTALRM, _alarm)
     kind, payload = job
     res = {"calls": 0, "viol": [], "nontrivial": 0, "shapes": {}, "cases": 0, "samples": []}
 
@@ -206,6 +207,37 @@ def _worker(job):
                     res["nontrivial"] += 1
     elif kind == "readprofiles":
         n, part, nparts = payload
+        if part == 0:
+            # known introns that lie within delta of EACH OTHER (alternative sites a few bases apart), reads at and around them
+            for delta in (1, 2, 3):
+                for ds in range(-3, 4):
+                    for de in range(-3, 4):
+                        if (ds, de) == (0, 0):
+                            continue
+                        for third in (None, (34, 44)):
+                            known = sorted(set([(10, 21), (10 + ds, 21 + de)] + ([third] if third else [])))
+                            for rs in range(-3, 4):
+                                for re_ in range(-3, 4):
+                                    for second in (None, (34, 44), (35, 44)):
+                                        r_introns = [(10 + rs, 21 + re_)] + ([second] if second else [])
+                                        blocks = [(1, r_introns[0][0] - 1)]
+                                        for i_, ri in enumerate(r_introns):
+                                            nxt = r_introns[i_ + 1][0] - 1 if i_ + 1 < len(r_introns) else ri[1] + 9
+                                            blocks.append((ri[1] + 1, nxt))
+                                        if not all(sum(1 for r in r_introns if abs(f[0] - r[0]) <= delta and abs(f[1] - r[1]) <= delta) <= 1 for f in known):
+                                            continue
+                                        res["cases"] += 1
+                                        pc = lrp.OverlappingFeaturesProfileConstructor(known, (1, 60), comparator=partial(common.equal_ranges, delta=delta),
+                                                                                       delta=delta)
+                                        mp = _call(res, "construct_intron_profile", pc.construct_intron_profile, blocks)
+                                        if mp is not None:
+                                            exp = C.expected_overlapping_profile(known, r_introns, (blocks[0][0], blocks[-1][1]), delta)
+                                            ok = C.profile_agrees(mp.gene_profile, exp)
+                                            C._rec("construct_intron_profile", ok, (known, blocks, delta), mp.gene_profile)
+                                            res["twin_cases"] = res.get("twin_cases", 0) + 1
+                                            if not ok:
+                                                res["viol"].append(("construct_intron_profile:wrong-result",
+                                                                    repr((known, blocks, delta)), "%s expected %s" % (mp.gene_profile, exp)))
         tlists = [l for l in all_lists(n) if all(l[i][1] + 1 < l[i + 1][0] for i in range(len(l) - 1))]
         idx = 0
         for known_t in tlists:           # known transcript (features = its exons / introns / split blocks)
@@ -228,9 +260,7 @@ def _worker(job):
                     if k_introns:
                         # precondition: each read feature within delta of at most one known feature
                         r_introns = C.runs(set(range(read[0][0], read[-1][1] + 1)) - C.U(read))
-                        if all(sum(1 for f in k_introns if abs(f[0] - r[0]) <= delta and abs(f[1] - r[1]) <= delta) <= 1
-                               for r in r_introns) and \
-                           all(sum(1 for r in r_introns if abs(f[0] - r[0]) <= delta and abs(f[1] - r[1]) <= delta) <= 1
+                        if all(sum(1 for r in r_introns if abs(f[0] - r[0]) <= delta and abs(f[1] - r[1]) <= delta) <= 1
                                for f in k_introns):
                             pc = lrp.OverlappingFeaturesProfileConstructor(k_introns, gene_region,
                                                                            comparator=partial(common.equal_ranges, delta=delta),
@@ -238,13 +268,12 @@ def _worker(job):
                             mp = _call(res, "construct_intron_profile", pc.construct_intron_profile, blocks)
                             if mp is not None:
                                 exp = C.expected_overlapping_profile(k_introns, r_introns, (read[0][0], read[-1][1]), delta)
-                                C._rec("construct_intron_profile", mp.gene_profile == exp, (k_introns, blocks, delta), mp.gene_profile)
-                                if mp.gene_profile != exp:
+                                C._rec("construct_intron_profile", C.profile_agrees(mp.gene_profile, exp), (k_introns, blocks, delta), mp.gene_profile)
+                                if not C.profile_agrees(mp.gene_profile, exp):
                                     res["viol"].append(("construct_intron_profile:wrong-result",
                                                         repr((k_introns, blocks, delta)), "%s expected %s" % (mp.gene_profile, exp)))
                     # exons (used for --count_exons)
-                    if all(sum(1 for f in k_exons if abs(f[0] - r[0]) <= delta and abs(f[1] - r[1]) <= delta) <= 1 for r in blocks) and \
-                       all(sum(1 for r in blocks if abs(f[0] - r[0]) <= delta and abs(f[1] - r[1]) <= delta) <= 1 for f in k_exons):
+                    if all(sum(1 for r in blocks if abs(f[0] - r[0]) <= delta and abs(f[1] - r[1]) <= delta) <= 1 for f in k_exons):
                         pc = lrp.OverlappingFeaturesProfileConstructor(k_exons, gene_region,
                                                                        comparator=partial(common.equal_ranges, delta=delta),
                                                                        delta=delta)
@@ -252,8 +281,8 @@ def _worker(job):
                         if mp is not None:
                             mr = (blocks[0][1] + delta, blocks[-1][0] - delta)
                             exp = C.expected_overlapping_profile(k_exons, blocks, mr, delta)
-                            C._rec("construct_exon_profile", mp.gene_profile == exp, (k_exons, blocks, delta), mp.gene_profile)
-                            if mp.gene_profile != exp:
+                            C._rec("construct_exon_profile", C.profile_agrees(mp.gene_profile, exp), (k_exons, blocks, delta), mp.gene_profile)
+                            if not C.profile_agrees(mp.gene_profile, exp):
                                 res["viol"].append(("construct_exon_profile:wrong-result",
                                                     repr((k_exons, blocks, delta)), "%s expected %s" % (mp.gene_profile, exp)))
                 # split-exon profile (default comparator: overlaps)
